@@ -19,7 +19,7 @@ demo_path=$(python3 -c "import json;print(json.load(open('$src/meta.json'))['dem
 demo_cmd=$(python3 -c "
 import json,re
 c=json.load(open('$src/meta.json'))['demo_cmd']
-c=re.sub(r'cd\s+\S+\s*&&\s*','',c); c=re.sub(r'CARGO_TARGET_DIR=\S+\s*','',c); c=re.sub(r'CARGO_NET_OFFLINE=\S+\s*','',c)
+c=re.sub(r'\s+\(.*$','',c); c=re.sub(r'cd\s+\S+\s*&&\s*','',c); c=re.sub(r'CARGO_TARGET_DIR=\S+\s*','',c); c=re.sub(r'CARGO_NET_OFFLINE=\S+\s*','',c)
 print(c)")
 mkdir -p $root/repo/$(dirname $demo_path); cp $src/demo.rs $root/repo/$demo_path
 ( cd $root/repo && eval "$demo_cmd" ) > $root/demo_clean.log 2>&1; clean=$?
